@@ -16,6 +16,7 @@ import Anko.Props.CoreFlowTable
 import Anko.Props.Tie.CoreFlow
 import Anko.Props.Tie.ToXFlow
 import Anko.Props.Tie.ContFlow
+import Anko.Props.Tie.Inventory
 
 namespace Anko.C19
 open Anko
@@ -241,5 +242,18 @@ property is not overlooked. -/
 theorem source_tie_ToXFlow : Gen.ToXFlow.leaves = Tables.toXFlow := Tie.toXFlow
 /-- the container paths (index, slice, len, member, make, assignment targets, delete) -/
 theorem source_tie_ContFlow : Gen.ContFlow.leaves = Tables.contFlow := Tie.contFlow
+
+
+/-! ### Declaration inventory
+
+Nothing was added to the packages this property is anchored in: their top-level declarations (functions, methods, variables, constants, types with
+the fields of struct types), regenerated from /repo on this run, are the audited ones (Props/Tie/Inventory). A helper, a package-level table or a
+file added there - code no flow table can pin - breaks the tie by name and makes this property's check search for a failing input. -/
+/-- core/ -/
+theorem declarations_of_Core_are_the_audited_ones : Tie.ofPkg "core" Gen.Inventory.decls = Tie.ofPkg "core" Tables.inventory := Tie.inventoryCore
+/-- vm/ -/
+theorem declarations_of_Vm_are_the_audited_ones : Tie.ofPkg "vm" Gen.Inventory.decls = Tie.ofPkg "vm" Tables.inventory := Tie.inventoryVm
+/-- packages/ (which files exist, what they declare besides init) -/
+theorem declarations_of_Packages_are_the_audited_ones : Tie.ofPkg "packages" Gen.Inventory.decls = Tie.ofPkg "packages" Tables.inventory := Tie.inventoryPackages
 
 end Anko.C19
